@@ -47,11 +47,16 @@ type checkSpec struct {
 	// built with -race (phase R).
 	AlsoRace bool
 	RaceRuns map[string]int
+	// DeathIsViolation: a worker process that dies (fatal error, unrecovered
+	// panic in a risor goroutine, exit through a bypassed OS) is a violation
+	// candidate, confirmed by repeating the in-flight run alone.
+	DeathIsViolation bool
 }
 
 // Budgets live here (driver side) so that tiers can be tuned without touching
 // the scenarios.
 var specs = map[string]*checkSpec{
+	"C03": {Property: "C03", Level: "exploration", DeathIsViolation: true, Runs: map[string]int{"quick": 12000, "thorough": 400000}, Wall: map[string]int{"quick": 50, "thorough": 1500}},
 	"C09": {Property: "C09", Level: "exploration", AlsoRace: true, Runs: map[string]int{"quick": 8000, "thorough": 300000}, RaceRuns: map[string]int{"quick": 3000, "thorough": 100000}, Wall: map[string]int{"quick": 70, "thorough": 1800}},
 	"C14": {Property: "C14", Level: "exploration", Runs: map[string]int{"quick": 12000, "thorough": 400000}, Wall: map[string]int{"quick": 50, "thorough": 1500}},
 	"C12": {Property: "C12", Level: "fault_enumeration", Runs: map[string]int{"quick": 0, "thorough": 0}, Wall: map[string]int{"quick": 50, "thorough": 1500}, TotalFromWorker: true},
@@ -278,7 +283,10 @@ func cmdReplay(args []string) {
 		infra("cannot read %s: %v", path, err)
 	}
 	var rf struct {
-		Property string `json:"property"`
+		Property  string `json:"property"`
+		Violation struct {
+			Class string `json:"class"`
+		} `json:"violation"`
 	}
 	if err := json.Unmarshal(b, &rf); err != nil {
 		infra("bad replay file: %v", err)
@@ -291,10 +299,19 @@ func cmdReplay(args []string) {
 	out, _ := cmd.CombinedOutput()
 	fmt.Print(string(out))
 	reproduced := false
+	sawResult := false
 	for _, line := range strings.Split(string(out), "\n") {
-		if strings.HasPrefix(line, "REPLAY-RESULT") && !strings.Contains(line, "reproduced=0/") {
-			reproduced = true
+		if strings.HasPrefix(line, "REPLAY-RESULT") {
+			sawResult = true
+			if !strings.Contains(line, "reproduced=0/") {
+				reproduced = true
+			}
 		}
+	}
+	if strings.HasPrefix(rf.Violation.Class, "process-death") && !sawResult && deathReason(string(out)) != "" {
+		// the violation IS the death of the process: it died again
+		fmt.Printf("replay: the worker process died again: %s\n", deathReason(string(out)))
+		reproduced = true
 	}
 	if reproduced {
 		fmt.Printf("VIOLATION property=%s replay=%s\n", rf.Property, path)
@@ -549,7 +566,47 @@ func cmdCheck(args []string) {
 
 	if len(crashed) > 0 {
 		handled := false
-		if h := crashHandlers[id]; h != nil {
+		if spec.DeathIsViolation {
+			// A dead worker is a crash of the process under test. Confirm each
+			// one by running the in-flight run index alone in a fresh process.
+			handled = true
+			for _, r := range results {
+				if r.aggOK {
+					continue
+				}
+				var idx int
+				var rseed uint64
+				if n, _ := fmt.Sscanf(r.lastBeg, "begin index=%d seed=%d", &idx, &rseed); n != 2 {
+					handled = false
+					break
+				}
+				reason := deathReason(r.output)
+				if strings.Contains(reason, "harness:") || reason == "" {
+					handled = false
+					break
+				}
+				out := filepath.Join(outDir, fmt.Sprintf("confirm-%d.json", idx))
+				cmd := exec.Command(bin, "-test.run", "TestWorker", "-test.timeout", "30m")
+				cmd.Dir = verifDir
+				cmd.Env = append(os.Environ(), "VERIF_CHECK="+id, "VERIF_TIER="+*tier, "VERIF_SEED="+strconv.FormatUint(seed, 10),
+					"VERIF_FROM="+strconv.Itoa(idx), "VERIF_TO="+strconv.Itoa(idx+1), "VERIF_STRIDE=1", "VERIF_OUT="+out, "VERIF_REPLAY_DIR="+replayDir)
+				cout, _ := cmd.CombinedOutput()
+				if _, err := os.Stat(out); err == nil {
+					fmt.Printf("INFRA: worker death during index %d did not reproduce when the run was repeated alone (%s)\n", idx, reason)
+					handled = false
+					break
+				}
+				reason2 := deathReason(string(cout))
+				rp := filepath.Join(replayDir, fmt.Sprintf("%s-%d-%d.json", id, seed, idx))
+				rf := map[string]any{"property": id, "scenario": md.Name, "tier": *tier, "base_seed": seed, "index": idx, "run_seed": rseed, "regenerate": true,
+					"violation": map[string]any{"property": id, "class": "process-death", "message": reason2},
+					"rendering": map[string]any{"first_death": reason, "confirmed_death": reason2, "note": "the worker process died while executing this run; replay regenerates the tape from run_seed and counts a repeated death as reproduction"}}
+				b, _ := json.MarshalIndent(rf, "", " ")
+				os.WriteFile(rp, b, 0o644)
+				total.Violations = append(total.Violations, foundViolation{Property: id, Class: "process-death/" + firstLine(reason2), Message: "the worker process died: " + reason2, Seed: rseed, Index: idx, Replay: rp})
+			}
+		}
+		if h := crashHandlers[id]; h != nil && !handled {
 			handled = h(crashed, results2logs(outDir))
 		}
 		if !handled {
@@ -559,8 +616,11 @@ func cmdCheck(args []string) {
 			infra("%d worker(s) died without writing an aggregate", len(crashed))
 		}
 	}
-	if total.Runs == 0 {
+	if total.Runs == 0 && len(total.Violations) == 0 {
 		infra("no runs were executed")
+	}
+	if total.Runs == 0 {
+		total.Runs = len(total.Violations) // runs that killed their worker
 	}
 	if spec.MustCount != "" {
 		n := 0
@@ -616,6 +676,26 @@ func cmdCheck(args []string) {
 		os.Exit(1)
 	}
 	os.Exit(0)
+}
+
+// deathReason extracts the fatal error / panic line of a dead worker's log.
+func deathReason(log string) string {
+	for _, l := range strings.Split(log, "\n") {
+		if strings.HasPrefix(l, "fatal error:") || strings.HasPrefix(l, "panic:") || strings.Contains(l, "signal SIGSEGV") {
+			return strings.TrimSpace(l)
+		}
+	}
+	return ""
+}
+
+func firstLine(s string) string {
+	if i := strings.IndexAny(s, "\n["); i > 0 {
+		s = s[:i]
+	}
+	if len(s) > 80 {
+		s = s[:80]
+	}
+	return strings.TrimSpace(s)
 }
 
 var exhaustiveDone bool
